@@ -259,7 +259,7 @@ func run(c *core.Ctx) {
 		c.R.HarnessError("fixture: %v", err)
 		return
 	}
-	c.R.Rule = "case = (text or AST, entry point): every text of the token enumeration (6 alphabets) and byte enumeration to Do, Subscribe, PlanCache.Get x3; every parser-accepted AST unvalidated to ValidateDocument, PlanQuery, Execute, ExecuteSubscription, Print; fragment topologies with cycles; variable maps of arbitrary Go values; zero-valued parameters. non-trivial = parser-accepted texts; distinct texts"
+	c.R.Rule = "case = (text or AST, entry point): every text of the token enumeration (6 alphabets), of the token-edit neighbourhoods of 18 long sentences and of the byte enumeration to Do, Subscribe, PlanCache.Get x3; every parser-accepted AST unvalidated to ValidateDocument, PlanQuery, Execute, ExecuteSubscription, Print; fragment topologies with cycles; variable maps of arbitrary Go values; zero-valued parameters. non-trivial = parser-accepted texts; distinct texts"
 	c.R.Assumptions = []string{"termination judged by the instrumenter's step counter (function entries + loop iterations) with horizon 400000, far above the polynomial cost of inputs of <= 13 tokens", "a 3 s wall-clock wait only guards reads from subscription channels, where no source is involved", "Go toolchain"}
 	qi := 0
 	if !c.Quick() {
@@ -346,6 +346,15 @@ func run(c *core.Ctx) {
 				c.Mismatch(classifyZero(name), "zero "+name, bad, map[string]interface{}{"zero": name})
 			}
 		}
+	}
+	// neighbourhoods of long sentences: single edits (quick), nearby pairs (thorough)
+	{
+		window := c.Pick(0, 1)
+		c.R.Bounds["corpus_sentences"] = len(langx.Corpus)
+		c.R.Bounds["corpus_second_edit_window"] = window
+		langx.Neighbourhood(window, c.Shard, c.NShards, langx.ReducedEditAlphabet, func(seed int, toks []string, text []byte) {
+			visit("corpus-edits", toks, text)
+		})
 	}
 	for _, a := range langx.Alphabets {
 		if c.Expired() {
